@@ -367,7 +367,10 @@ func (doc *Document) Warnings() (warnings Warnings) {
 			context.Family = family
 		}
 
-		Filter(node, doc, func(node Node) (newNode Node, traverseChildren bool) {
+		// Filter() must not be used to walk the nodes: it copies them and
+		// registers a new family in the document for every family it meets.
+		var visit func(node Node)
+		visit = func(node Node) {
 			if warner, ok := node.(Warner); ok {
 				for _, warning := range warner.Warnings() {
 					warning.SetContext(context)
@@ -375,8 +378,12 @@ func (doc *Document) Warnings() (warnings Warnings) {
 				}
 			}
 
-			return node, true
-		})
+			for _, child := range node.Nodes() {
+				visit(child)
+			}
+		}
+
+		visit(node)
 	}
 
 	return
